@@ -26,8 +26,10 @@ KINDS = {
     "K": ("Die Kommazahl", "(({X}) als Zahl) durch 4", "Schreibe die Kommazahl {V}."),
     "KL": ("Die Kommazahlen Liste", "KLVON ({X})", "ZEIGEKL {V}."),
     "YL": ("Die Byte Liste", "YLVON ({X})", "ZEIGEYL {V}."),
+    "ZN": ("Die Zahlen Liste", "ZNVON ({X})", "ZEIGEZL {V}."),      # long lists of arbitrary non-negative numbers "12,7,300,"
+    "KN": ("Die Kommazahlen Liste", "KNVON ({X})", "ZEIGEKL {V}."),  # the same as quarters
 }
-COPY = {"ZL": "KOPIEZL", "TL": "KOPIETL", "XL": "KOPIETL", "BL": "KOPIEBL", "T": "KOPIET", "X": "KOPIET", "KL": "KOPIEKL", "YL": "KOPIEYL"}
+COPY = {"ZN": "KOPIEZL", "KN": "KOPIEKL", "ZL": "KOPIEZL", "TL": "KOPIETL", "XL": "KOPIETL", "BL": "KOPIEBL", "T": "KOPIET", "X": "KOPIET", "KL": "KOPIEKL", "YL": "KOPIEYL"}
 
 
 def _lit_list(vals, fmt):
@@ -58,6 +60,32 @@ Die Funktion f_klvon mit dem Parameter s vom Typ Text, gibt eine Kommazahlen Lis
 	Gib r zurück.
 Und kann so benutzt werden:
 	"KLVON <s>"
+
+Die Funktion f_znvon mit dem Parameter s vom Typ Text, gibt eine Zahlen Liste zurück, macht:
+	Die Zahlen Liste r ist eine leere Zahlen Liste.
+	Die Zahl acc ist 0.
+	Für jeden Buchstaben c in s, mache:
+		Wenn c gleich ',' ist, dann:
+			Speichere r verkettet mit acc in r.
+			Speichere 0 in acc.
+		Sonst:
+			Speichere acc mal 10 plus ((c als Zahl) minus 48) in acc.
+	Gib r zurück.
+Und kann so benutzt werden:
+	"ZNVON <s>"
+
+Die Funktion f_knvon mit dem Parameter s vom Typ Text, gibt eine Kommazahlen Liste zurück, macht:
+	Die Kommazahlen Liste r ist eine leere Kommazahlen Liste.
+	Die Zahl acc ist 0.
+	Für jeden Buchstaben c in s, mache:
+		Wenn c gleich ',' ist, dann:
+			Speichere r verkettet mit (acc durch 4) in r.
+			Speichere 0 in acc.
+		Sonst:
+			Speichere acc mal 10 plus ((c als Zahl) minus 48) in acc.
+	Gib r zurück.
+Und kann so benutzt werden:
+	"KNVON <s>"
 
 Die Funktion f_xlvon mit dem Parameter s vom Typ Text, gibt eine Text Liste zurück, macht:
 	Die Text Liste r ist eine leere Text Liste.
@@ -265,6 +293,8 @@ def tok(kind, v):
         return str(v)
     if kind in ("T", "B"):
         return v
+    if kind in ("ZN", "KN"):
+        return "".join("%d," % x for x in v)
     if kind == "ZL":
         return "".join(LETTERS[WERTE.index(x)] for x in v)
     if kind == "KL":
@@ -303,13 +333,13 @@ def ser(kind, v):
         return "wahr" if v else "falsch"
     if kind in ("T", "B", "X"):
         return "<" + esc(v) + ">"
-    if kind in ("ZL", "YL"):
+    if kind in ("ZL", "YL", "ZN"):
         return "[" + "".join("%d," % x for x in v) + "]"
     if kind in ("TL", "BL", "XL"):
         return "[" + "".join("<%s>," % esc(x) for x in v) + "]"
     if kind == "K":
         return kfmt(v)
-    if kind == "KL":
+    if kind in ("KL", "KN"):
         return "[" + "".join(kfmt(x / 4) + ";" for x in v) + "]"
     raise ValueError(kind)
 
@@ -324,7 +354,7 @@ def norm_field(kind, s):
             return "K?" + x
     if kind == "K":
         return fl(s)
-    if kind == "KL":
+    if kind in ("KL", "KN"):
         body = s[1:-1] if s.startswith("[") and s.endswith("]") else s
         return "[" + "".join(fl(x) + ";" for x in body.split(";") if x != "") + "]"
     return s
